@@ -563,12 +563,23 @@ def run_cases(cases, impl_bin, kind_env=None, workers=16, timeout=20, model_work
 
 
 def gunzip_first_member(data):
+    """Reference for "what a .gz file holds" (RFC 1952): the concatenation of its members;
+    bytes after the last member that do not start another member (no 1F 8B magic) are
+    ignored, as gzip(1) does; a damaged or incomplete member is an error.
+    (The name is historical: until the multi-member repair dfs read the first member only.)"""
     import zlib
-    d = zlib.decompressobj(16 + zlib.MAX_WBITS)
-    out = d.decompress(data)
-    if not d.eof:
-        raise ValueError('incomplete')
-    return out
+    out = b''
+    first = True
+    while True:
+        d = zlib.decompressobj(16 + zlib.MAX_WBITS)
+        out += d.decompress(data)
+        if not d.eof:
+            raise ValueError('incomplete')
+        data = d.unused_data
+        first = False
+        if len(data) >= 2 and data[0] == 0x1F and data[1] == 0x8B:
+            continue
+        return out
 
 
 def crashed(rc, stderr):
